@@ -117,7 +117,26 @@ static int textlayer() {
     }
     return 0;
 }
+// standalone key objects of every shape through their own export / import (ASan build: an importer writing outside its destination is a finding)
+static int standalone() {
+    static const int shapes[][2] = {{64, 1}, {32, 2}, {16, 3}, {1, 2}};
+    for (auto &sh : shapes) { int N = sh[0], k = sh[1];
+        TLweParams *tp = new_TLweParams(N, k, 0.25, 0.5); TGswParams *gp = new_TGswParams(2, 8, tp);
+        TLweKey *K = new_TLweKey(tp); for (int i = 0; i < k; i++) for (int j = 0; j < N; j++) K->key[i].coefs[j] = (i * 31 + j * 7) % 2;
+        std::ostringstream o; export_tlweKey_toStream(o, K); std::istringstream in(o.str()); TLweKey *R = new_tlweKey_fromStream(in);
+        for (int i = 0; i < k; i++) if (memcmp(K->key[i].coefs, R->key[i].coefs, 4 * (size_t)N)) { printf("TLWE key N=%d k=%d: polynomial %d differs after export/import\n", N, k, i); return 1; }
+        TGswKey *G = new_TGswKey(gp); for (int i = 0; i < k; i++) for (int j = 0; j < N; j++) G->key[i].coefs[j] = (i * 13 + j * 5) % 2;
+        std::ostringstream o2; export_tgswKey_toStream(o2, G); std::istringstream in2(o2.str()); TGswKey *H = new_tgswKey_fromStream(in2);
+        for (int i = 0; i < k; i++) if (memcmp(G->key[i].coefs, H->key[i].coefs, 4 * (size_t)N)) { printf("TGSW key N=%d k=%d: polynomial %d differs after export/import\n", N, k, i); return 1; }
+        delete_TLweKey(K); delete_TLweKey(R); delete_TGswKey(G); delete_TGswKey(H);
+    }
+    for (int n : {1, 7, 630}) { LweParams *lp = new_LweParams(n, 0.25, 0.5); LweKey *K = new_LweKey(lp); for (int j = 0; j < n; j++) K->key[j] = j % 2;
+        std::ostringstream o; export_lweKey_toStream(o, K); std::istringstream in(o.str()); LweKey *R = new_lweKey_fromStream(in);
+        if (memcmp(K->key, R->key, 4 * (size_t)n)) { printf("LWE key n=%d differs after export/import\n", n); return 1; } delete_LweKey(K); delete_LweKey(R); }
+    return 0;
+}
 int main(int argc, char **argv) {
+    if (!(argc > 1 && !strcmp(argv[1], "C05text")) && standalone()) return 1;
     if (argc > 1 && !strcmp(argv[1], "C05text")) return textlayer();
     if (argc > 1 && !strcmp(argv[1], "C05")) {
         static const int32_t sets[][7] = { {8, 1024, 1, 2, 4, 2, 1}, {5, 1024, 1, 3, 3, 3, 2}, {6, 1024, 2, 2, 5, 2, 1}, {1100, 1024, 1, 1, 8, 1, 1} };
